@@ -1,13 +1,14 @@
 #!/bin/bash
 # usage: tools/seed_matrix.sh [out-file]   - applies every seeded change in turn to the repository (VERIF_REPO, default /repo), runs the quick
 # check of its property (then the alternates recorded below) and writes one line per seed: <seed> <detected-by or MISSED or NOAPPLY>
+# SEED_GLOB='seeded/C19-*/ seeded/C20-*/' restricts the sweep.
 # NOTE: modifies the working tree of $VERIF_REPO while it runs (each change is undone afterwards).
 out=${1:-seeded/MATRIX.txt}
 REPO=${VERIF_REPO:-/repo}
 declare -A ALT=( [C09-5]="C13" [C04-4]="C09" [C01-4]="C02" [C02-1]="C10" [C02-3]="C12" [C05-2]="C03" [C05-3]="C03" )
 cd "$(dirname "$0")/.."
 : > "$out.tmp"
-for d in seeded/C*-*/; do
+for d in ${SEED_GLOB:-seeded/C*-*/}; do
   s=$(basename "$d"); prop=${s%-*}
   ( cd "$REPO" && git checkout -q -- . )
   if ! ( cd "$REPO" && ( git apply "$OLDPWD/$d/patch.diff" 2>/dev/null || patch -p1 -F 3 -s --no-backup-if-mismatch < "$OLDPWD/$d/patch.diff" >/dev/null 2>&1 ) ); then
